@@ -479,7 +479,8 @@ def facts_mean(mod, em):
                         and call_name(lp.body[0].value.func) == "_mean" and len(lp.body[0].value.args) == 2 \
                         and isinstance(lp.body[0].value.args[0], ast.Name) \
                         and lp.body[0].value.args[0].id == lp.body[0].targets[0].id \
-                        and "excludes" in ast.unparse(lp.body[0].value.args[1]):
+                        and "excludes" in ast.unparse(lp.body[0].value.args[1]) \
+                        and sum(1 for n in ast.walk(f) if isinstance(n, ast.Call) and call_name(n.func) == "_mean") == 1:
                     ok = True
                     src = ast.unparse(lp).replace("\n", "; ")
             except NoMatch:
